@@ -904,6 +904,20 @@ func (r *aeRun) exec(fr *frame, b *ssa.BasicBlock, pred *ssa.BasicBlock) any {
 					fr.vals[ph] = ev
 				}
 				skipPhis = true
+				// a rotated counting loop (for i := range n): the test i < n is made in front of the loop and
+				// at the latch, not at the header. The generic position satisfies it; where it does not,
+				// control is at the loop's exit.
+				if bound, exit, latch := rotatedGuard(l); bound != nil {
+					if !r.truth(r.binop(token.LSS, avIndex{0}, r.eval(fr, bound), types.Typ[types.Bool])) {
+						r.outcome = &iterOutcome{kind: "done"}
+						r.inIter = false
+						r.inTail = true
+						resv := r.exec(fr, exit, latch)
+						r.inTail = false
+						r.outcome = &iterOutcome{kind: "tail", val: resv}
+						panic(returned{nil})
+					}
+				}
 			case r.inIter && fr == r.iterFrame && l.header == r.target.header && !fromOutside:
 				// back edge of the analysed loop: one generic position done
 				if r.freePhis {
@@ -965,7 +979,9 @@ func (r *aeRun) exec(fr *frame, b *ssa.BasicBlock, pred *ssa.BasicBlock) any {
 		}
 		if r.inIter && fr == r.iterFrame && r.target.body[b] && !r.target.body[nb] {
 			// leaving the analysed loop without returning: only through the header guard
-			if b != r.target.header {
+			// (a bottom-tested loop has no header guard: leaving from its first block is an early exit too)
+			rotBound, _, _ := rotatedGuard(r.target)
+			if b != r.target.header || rotBound != nil {
 				// early exit from the body (return block or break): the value eventually returned
 				// is this position's exit value
 				b, pred = nb, np
@@ -1043,6 +1059,75 @@ func sameAV(a, b any) bool {
 	return false
 }
 
+// rotatedGuard: l is a bottom-tested counting loop  if 0 < n { do { ... } while (i+1 < n) }: the header has
+// no test on the counter, exactly one latch tests next < n with next = counter+1, and the block in front of
+// the loop tests 0 < n with the same n. Returns n, the exit block and the latch.
+func rotatedGuard(l *loop) (bound ssa.Value, exit, latch *ssa.BasicBlock) {
+	var idx *ssa.Phi
+	for _, ins := range l.header.Instrs {
+		ph, ok := ins.(*ssa.Phi)
+		if !ok {
+			break
+		}
+		if isIntType(ph.Type()) && idx == nil {
+			idx = ph
+		}
+	}
+	if idx == nil || len(l.backs) != 1 {
+		return nil, nil, nil
+	}
+	if iff, ok := l.header.Instrs[len(l.header.Instrs)-1].(*ssa.If); ok {
+		if bo, ok := iff.Cond.(*ssa.BinOp); ok && (bo.X == ssa.Value(idx) || bo.Y == ssa.Value(idx)) {
+			return nil, nil, nil // top-tested
+		}
+	}
+	lb := l.backs[0]
+	iff, ok := lb.Instrs[len(lb.Instrs)-1].(*ssa.If)
+	if !ok {
+		return nil, nil, nil
+	}
+	bo, ok := iff.Cond.(*ssa.BinOp)
+	if !ok || bo.Op != token.LSS {
+		return nil, nil, nil
+	}
+	nx, ok := bo.X.(*ssa.BinOp)
+	if !ok || nx.Op != token.ADD || nx.X != ssa.Value(idx) {
+		return nil, nil, nil
+	}
+	if one, ok := constInt(nx.Y); !ok || one != 1 {
+		return nil, nil, nil
+	}
+	if lb.Succs[0] != l.header || l.body[lb.Succs[1]] {
+		return nil, nil, nil
+	}
+	// the test in front of the loop
+	okPre := false
+	for i, pb := range l.header.Preds {
+		if l.body[pb] {
+			continue
+		}
+		if c, ok := constInt(idx.Edges[i]); !ok || c != 0 {
+			return nil, nil, nil
+		}
+		pi, ok := pb.Instrs[len(pb.Instrs)-1].(*ssa.If)
+		if !ok {
+			return nil, nil, nil
+		}
+		pbo, ok := pi.Cond.(*ssa.BinOp)
+		if !ok || pbo.Op != token.LSS || pbo.Y != bo.Y || pb.Succs[0] != l.header {
+			return nil, nil, nil
+		}
+		if z, ok := constInt(pbo.X); !ok || z != 0 {
+			return nil, nil, nil
+		}
+		okPre = true
+	}
+	if !okPre {
+		return nil, nil, nil
+	}
+	return bo.Y, lb.Succs[1], lb
+}
+
 // runBlockBody executes the non-phi instructions of b and returns the next block.
 func (r *aeRun) runBlockBody(fr *frame, b *ssa.BasicBlock) (*ssa.BasicBlock, *ssa.BasicBlock) {
 	for _, ins := range b.Instrs {
@@ -1057,6 +1142,14 @@ func (r *aeRun) runBlockBody(fr *frame, b *ssa.BasicBlock) (*ssa.BasicBlock, *ss
 					r.checkBackEdge(fr, h, b, r.target)
 					r.outcome = &iterOutcome{kind: "continue"}
 					panic(returned{nil})
+				}
+			}
+			// the test 0 < n in front of a rotated counting loop: the loop is entered regardless; its
+			// generic position (or its summary) accounts for the case that there is no position at all,
+			// exactly as for the top-tested spelling, whose header is always reached
+			if hl := r.ctx.loopAt(b.Succs[0]); hl != nil && !hl.body[b] {
+				if bound, _, _ := rotatedGuard(hl); bound != nil {
+					return b.Succs[0], b
 				}
 			}
 			if r.truth(r.eval(fr, x.Cond)) {
@@ -1435,6 +1528,9 @@ func (r *aeRun) elemAddr(seq avRef, idx any) avAddr {
 				return avAddr{ref: &nr}
 			}
 		}
+	}
+	if t, ok := idx.(avTerm); ok {
+		r.oof("element index by the term %s (tail=%v, iter=%v)", t.key, r.inTail, r.inIter)
 	}
 	r.oof("element index %T", idx)
 	return avAddr{}
